@@ -206,8 +206,11 @@ pub fn child_main(args: &[String]) -> i32 {
         }
     }
     let mut handles = Vec::new();
+    let spinners: u64 = n.min(12);
+    let spin_barrier = Arc::new(std::sync::atomic::AtomicU64::new(0));
     for tid in 0..n {
         let b = barrier.clone();
+        let sb = spin_barrier.clone();
         let h = std::thread::Builder::new()
             .name(format!("conc-{}", tid))
             .spawn(move || {
@@ -216,6 +219,19 @@ pub fn child_main(args: &[String]) -> i32 {
                 let mut ctx = fresh_ctx();
                 let mut res: Vec<Vec<String>> = vec![Vec::new(); 2 * N_ITEMS];
                 b.wait();
+                // the std barrier releases its waiters microseconds apart; a first-use race window can be a few
+                // nanoseconds.  The first SPINNERS threads therefore meet again at a spin barrier and start within
+                // tens of nanoseconds of each other, thread `tid` delayed by `tid * (pid mod 48)` spin iterations
+                // (0 = all at once; the stagger varies from process to process and affects timing only)
+                if tid < spinners {
+                    sb.fetch_add(1, std::sync::atomic::Ordering::AcqRel);
+                    while sb.load(std::sync::atomic::Ordering::Acquire) < spinners {
+                        std::hint::spin_loop();
+                    }
+                    for _ in 0..(tid * (std::process::id() as u64 % 48)) {
+                        std::hint::spin_loop();
+                    }
+                }
                 for (idx, line) in &sc {
                     let toks: Vec<&str> = line.split_whitespace().collect();
                     let r = crate::step(&mut ctx, &toks);
